@@ -48,6 +48,11 @@ cases.  Seed changes such a checker is likely to MISS although they clearly viol
 Think about which *dimension* of the statement's quantifier ("for every sequence / input / schedule / fault …") a small
 alphabet would leave out, and about code paths the statement covers that are reached only through less common entry points
 (alternative constructors, operators, keyword forms, inherited methods, helper functions that share the mechanism).
+Directions that earlier rounds used little: an *interaction* of two features that are each fine alone; state left behind by
+an operation that raised (then the next, ordinary operation misbehaves); an operation applied to the *result* of another
+operation (a copy, a view, a slice, the inverse side, a second iterator); the same call made through an alias or through
+the other of two sibling classes/functions the property names; the order of side effects inside one call; behaviour at a
+second or later *phase* of an object's life (after it was emptied, rolled over, compacted, closed and reopened, resized).
 The change must violate the property *as stated* (not some stricter reading), keep all tests green, and be realistic.
 '''
 
